@@ -1252,10 +1252,10 @@ impl OverlayFs {
                 delete_whiteout = true;
             }
 
-            // Set opaque if child dir has lower layers.
-            if !n.upper_layer_only() {
-                set_opaque = true;
-            }
+            // The whiteout hides whatever the lower layers have under this name (a
+            // whiteout node never records them), so the directory replacing it must
+            // be opaque or the old lower contents show up again after a restart.
+            set_opaque = true;
         }
 
         // Copy parent node up if necessary.
